@@ -48,6 +48,8 @@ class ExprMixin(object):
             return st.env[n]
         if n == '_yielded' and st.yielded is not None:
             return st.yielded
+        if self.spec_mode and n in getattr(self, 'roles', {}) and self.roles[n] in st.env:
+            return st.env[self.roles[n]]          # role names (_w0, _returned, ...): the local playing that role, whatever it is called
         return self.global_name(n, st)
 
     def global_name(self, n, st):
